@@ -14,7 +14,7 @@ SPEC = {
         "percentage resolution, block layout of cell contents and the preferred widths (tableAndColumnsPreferredWidths: min-/max-content widths, intrinsic percentages, constrainedness, total spacing) are not modelled: they are inputs of the auto layout model read from /repo",
     ],
     "not_modelled": ["tableAndColumnsPreferredWidths and the colspan calls of distributeExcessWidth inside it (contract predicate only; autoTableLayout and its top-level distributeExcessWidth ARE modelled)",
-                     "collapsed borders conflict resolution", "RTL tables", "page breaks inside tables", "baseline alignment of cells (vertical-align: baseline)",
+                     "collapsed borders conflict resolution", "RTL tables", "page breaks inside tables: which rows go to which page, repeated header / footer groups, the vertical geometry of a fragment (the horizontal geometry of every fragment IS compared)", "baseline alignment of cells (vertical-align: baseline)",
                      "column / column group boxes' own geometry"],
     "codes": {"1": "column positions / cell x / width / border-box width / kept cells differ from the float32 model",
               "3": "column widths violate the contract: negative width, columns + spacing != used table width, or used width < specified width",
@@ -28,12 +28,17 @@ SPEC = {
               "14": "the auto layout did not use the number of columns of the grid computed from the table structure",
               "15": "harness defect: the structural facts computed for the tags differ from the model's",
               "16": "autoTableLayout's column widths or used table width differ from the float32 model run on the preferred widths the implementation computed",
-              "17": "the preferred widths satisfy the hypotheses of C13_auto_layout_fills but columns + total spacing differ from the used table width"},
+              "17": "the preferred widths satisfy the hypotheses of C13_auto_layout_fills but columns + total spacing differ from the used table width",
+              "18": "table split across pages: after the whole document is laid out, the ColumnPositions of the fragment on one page are not the column positions of that fragment's own content box and column widths",
+              "19": "table split across pages: a cell of a fragment is not on the columns of its fragment (PositionX / width / border-box width)"},
     "theorems_for_kind": {
         "fixed": "C13_fixed_layout_fills", "corpus-fixed": "C13_fixed_layout_fills",
         "fixed-grid": "C13_table_grid / C13_slots / C13_group_without_rowspan_packed", "layout-grid": "C13_table_grid / C13_slots / C13_group_without_rowspan_packed",
         "corpus-grid": "C13_table_grid / C13_slots",
         "layout-auto": "C13_auto_layout_fills / C13_distribute_excess_conserves", "corpus-auto": "C13_auto_layout_fills / C13_distribute_excess_conserves",
+        "paged-horiz": "C13_fragments_positions / C13_fragment_column_positions / C13_cell_horizontal",
+        "paged-grid": "C13_table_grid / C13_slots", "corpus-paged-grid": "C13_table_grid / C13_slots",
+        "corpus-paged-horiz": "C13_fragments_positions / C13_fragment_column_positions / C13_cell_horizontal",
         "layout-horiz": "C13_column_positions / C13_cell_horizontal / C13_columns_adjacent / C13_columns_disjoint",
         "layout-vert": "C13_rowspan_heights_spec", "layout-widths": "C13_auto_layout_contract_partial (hypotheses of the grid theorems)",
         "corpus-horiz": "C13_cell_horizontal", "corpus-vert": "C13_rowspan_heights_spec", "corpus-widths": "C13_auto_layout_contract_partial",
@@ -43,7 +48,12 @@ SPEC = {
             "every document gives one grid case (structure vs GridX/Colspan/Rowspan/group order, column count of the auto layout); "
             "col / colgroup with span and widths, caption, table-layout fixed|auto, width auto|px|%, border-spacing in half pixels, 1 in 8 border-collapse, "
             "cell padding / border / width / height, row heights, Ahem words as content; 1 in 3 documents goes to the fixedTableLayout unit stream, the others are "
-            "laid out by layout.Layout and give one grid, one horizontal, one vertical, one column-width and one autoTableLayout case each; corpus/C13/*.html first; distinct by Coq term",
+            "laid out by layout.Layout and give one grid, one horizontal, one vertical, one column-width and one autoTableLayout case each; "
+            "3 in 15 documents come from the excess-width stream (specified width mostly above the max-content width; every column drawn from: px width on its <col>, px width on its cells, "
+            "percentage, nothing, crossed with 'all cells empty'; 2 in 3 of these tables have only constrained columns, so that the third, fourth and fifth group of distributeExcessWidth and both "
+            "outcomes of an undistributed excess are reached); 2 in 15 documents are paged: 5-14 rows per tbody (+ thead / tfoot) on pages 120-300px high whose content boxes differ "
+            "(@page :first / :left / :right margins, another size for the first page; 1 in 6 identical pages), laid out completely, then ONE case with the horizontal geometry of the table "
+            "fragment of EVERY page (ColumnPositions, cells) against the model run on that fragment's own content box and column widths; corpus/C13/*.html first; distinct by Coq term",
 }
 MANIFEST = {
     "text": "Coq theorems over a Gallina port of the table geometry of html/layout/tables.go (fixedTableLayout; column positions; cell x/width with "
@@ -60,7 +70,7 @@ MANIFEST = {
             "the preferred widths themselves are only checked against the contract predicate (columns + spacing = used width >= specified width, no negative width).",
     "note": "Partial: tableAndColumnsPreferredWidths is not modelled (C13_auto_layout_contract_statement stays a statement about the whole algorithm), two known findings (spacing of "
             "columns without originating cell, in the preferred widths; table shrunk below its specified width, proved of the model: C13_auto_layout_keeps_specified_width_refuted). Full pairwise disjointness of slots is refuted for colspan-over-rowspan "
-            "markup (see C09). Vertical theorems cover separated and collapsed borders alike but not baseline alignment, RTL, or tables split across pages. "
+            "markup (see C09). Vertical theorems cover separated and collapsed borders alike but not baseline alignment, RTL, or the vertical geometry / row distribution of tables split across pages (the horizontal geometry of every page's fragment is modelled: slice headers into a store, C13_fragments_positions). "
             "Trusted: Coq kernel (vm_compute), F32 rounding model, harness projection, hooks html/layout/verif_export_c13.go, html/layout/verif_export_c13_auto.go.",
     "technique": "Coq proof over executable model + vm_compute correspondence with the Go implementation",
 }
